@@ -215,6 +215,11 @@ func c11Run(c c11Case) []*core.Violation {
 				}
 				viaSend = true
 			}
+		case "reuse":
+			// no render: the caller goes on using the readers/buffers it once handed to Attach*/Embed*
+			b.CallerReuse()
+			rec.Class("caller-reuses-its-buffers-between-renders")
+			continue
 		case "failsink":
 			expectFail = true
 			sink := &faultSink{limit: op.K, partial: op.K%2 == 0}
@@ -341,7 +346,7 @@ func c11Gen(t *rapid.T) c11Case {
 	c := c11Case{Spec: *spec, Sign: sign}
 	nOps := rapid.IntRange(2, 5).Draw(t, "nops")
 	// every case renders at least 4 times so that map-order dependent differences show
-	kinds := []string{"writeto", "write", "reader", "readercopy", "updatereader", "partialupdate", "tofile", "totmp", "failsink", "failprod", "send", "send"}
+	kinds := []string{"writeto", "write", "reader", "readercopy", "updatereader", "partialupdate", "tofile", "totmp", "failsink", "failprod", "send", "send", "reuse"}
 	usedFailProd := false
 	for i := 0; i < nOps; i++ {
 		k := rapid.SampledFrom(kinds).Draw(t, "op")
